@@ -171,3 +171,31 @@ void supla_verif_hook_rs_set_relay(supla_roller_shutter_cfg_t *rs_cfg, uint8 val
 void supla_verif_hook_rs_trigger_fired(supla_roller_shutter_cfg_t *rs_cfg) {
   if (fw_hook_rs_log) sdk_out("TRIGFIRE %d %llu", (int)(rs_cfg - supla_rs_cfg), (unsigned long long)sdk_now_us);
 }
+
+#ifdef MQTT_SUPPORT_ENABLED
+/* ---- MQTT board hooks: print what the command handler is given ---- */
+#include <supla_esp_mqtt.h>
+uint8 supla_esp_board_mqtt_get_subscription_topic(char **topic_name, uint8 index) {
+  if (index == 1) return supla_esp_mqtt_prepare_topic(topic_name, "channels/+/set/+");
+  return 0;
+}
+uint8 supla_esp_board_mqtt_get_message_for_publication(char **topic_name, void **message,
+                                                       size_t *message_size, uint8 index, bool *retain) {
+  return 0;
+}
+void supla_esp_board_mqtt_on_message_received(uint8_t dup_flag, uint8_t qos_level, uint8_t retain_flag,
+                                              const void *topic_name, uint16_t topic_name_size,
+                                              const char *message, size_t message_size) {
+  fprintf(stdout, "PUB %u %u %u ", dup_flag, qos_level, retain_flag ? 1 : 0);
+  if (topic_name_size) sdk_out_hex(topic_name, topic_name_size); else fputc('-', stdout);
+  fputc(' ', stdout);
+  if (message_size > 70000) { fprintf(stdout, "HUGE:%llu", (unsigned long long)message_size); }
+  else if (message_size) sdk_out_hex(message, message_size); else fputc('-', stdout);
+  fputc('\n', stdout);
+  uint8 ch = 0, on = 0;
+  if (supla_esp_mqtt_parser_set_on(topic_name, topic_name_size, message, message_size, &ch, &on))
+    sdk_out("SETON %u %u", ch, on);
+}
+void supla_esp_board_mqtt_on_relay_state_changed(uint8 channel) {}
+void supla_esp_board_cfg_html_additional_settings(char *buffer, int buffer_size, int *offset) {}
+#endif
